@@ -6,6 +6,79 @@ CLAUSES = {"NoPanic", "Opens", "NamesOriginal", "Prefix", "FinishedIdentical", "
            "AuthOnlyVerified", "UnauthAtLeastAuth", "UnauthAtLeastAuth_DecoderTail", "Exact"}
 
 
+
+def cli_repair_damaged(v, tier, ev):
+    """The property speaks of the DEFAULT mode: `mlar repair` without option (and the library's default reader
+    configuration, used by the repair engine for its "auth" sweeps) on archives damaged in the middle."""
+    import os
+    import random
+    import subprocess
+    mlar = build_mlar()
+    wd = workdir("c04-cli")
+    rnd = random.Random(seed() + 4)
+    src = os.path.join(wd, "in")
+    os.makedirs(src)
+    files = {"a.bin": rnd.randbytes(300000), "b.bin": rnd.randbytes(200000), "c.txt": b"short file\n" * 4}
+    for n, d in files.items():
+        open(os.path.join(src, n), "wb").write(d)
+
+    def run(args, cwd=wd):
+        p = subprocess.run([mlar] + args, cwd=cwd, stdout=subprocess.PIPE, stderr=subprocess.PIPE, timeout=600, preexec_fn=limit_as)
+        return p.returncode, p.stderr.decode(errors="replace")[-300:]
+    key = os.path.join(wd, "k")
+    if run(["keygen", key])[0]:
+        raise ToolError("mlar keygen failed")
+    n = 0
+    for layers in (["-l", "encrypt"], ["-l", "compress", "-l", "encrypt"]):
+        arch = os.path.join(wd, f"a{len(layers)}.mla")
+        rc, se = run(["create", "-o", arch, "-p", key + ".pub", "a.bin", "b.bin", "c.txt"] + layers, cwd=src)
+        if rc:
+            raise ToolError(f"mlar create failed: {se}")
+        good = open(arch, "rb").read()
+        for frac in ((0.5,) if tier == "quick" else (0.3, 0.5, 0.8)):
+            at = int(len(good) * frac)
+            bad = bytearray(good)
+            bad[at] ^= 0x20
+            dam = os.path.join(wd, f"d{len(layers)}-{at}.mla")
+            open(dam, "wb").write(bad)
+            got = {}
+            for mode, opt in (("default", []), ("unauth", ["--allow-unauthenticated-data"])):
+                out = os.path.join(wd, f"r-{mode}-{len(layers)}-{at}.mla")
+                rc, se = run(["repair", "-i", dam, "-k", key, "-o", out] + opt + ["-l"])
+                rec = dict(check="cli-repair", mode=mode, comp=len(layers) == 4, first_unverified_chunk_is_0=False)
+                if rc:
+                    v.violation(dict(rec, clause="RepairRuns"), dict(cmd="repair", rc=rc, stderr=se, damaged_at=at))
+                    continue
+                xd = os.path.join(wd, f"x-{mode}-{len(layers)}-{at}")
+                rc, se = run(["extract", "-i", out, "-o", xd])
+                if rc:
+                    v.violation(dict(rec, clause="Opens"), dict(cmd="extract of the repaired archive", rc=rc, stderr=se, damaged_at=at))
+                    continue
+                got[mode] = {f: open(os.path.join(xd, f), "rb").read() for f in os.listdir(xd)}
+                n += 1
+            d = got.get("default")
+            if d is not None:
+                rec = dict(check="cli-repair", mode="default", comp=len(layers) == 4, first_unverified_chunk_is_0=False)
+                foreign = [f for f in d if f not in files]
+                notprefix = [f for f in d if f in files and files[f][:len(d[f])] != d[f]]
+                if foreign or notprefix:
+                    v.violation(dict(rec, clause="AuthOnlyVerified"), dict(damaged_at=at, foreign=foreign, not_prefix=notprefix,
+                                                                             lens={f: len(x) for f, x in d.items()}))
+                # nothing after the failed chunk is used: the recovered plaintext cannot exceed the bytes before the damage
+                if len(layers) == 2 and sum(len(x) for x in d.values()) > at:
+                    v.violation(dict(rec, clause="NothingAfterFailedChunk"), dict(damaged_at=at, lens={f: len(x) for f, x in d.items()}))
+                u = got.get("unauth")
+                if u is not None and len(layers) == 2:
+                    less = [f for f in d if len(u.get(f, b"")) < len(d[f]) or u[f][:len(d[f])] != d[f]]
+                    if less:
+                        v.violation(dict(check="cli-repair", mode="unauth", comp=False, first_unverified_chunk_is_0=False, clause="UnauthAtLeastAuth"),
+                                    dict(damaged_at=at, default={f: len(x) for f, x in d.items()}, unauth={f: len(x) for f, x in u.items()}))
+    import shutil
+    shutil.rmtree(wd, ignore_errors=True)
+    ev["cli_repairs"] = n
+    log(f"[C04] mlar repair (default and --allow-unauthenticated-data) on archives damaged in the middle: {n} repairs compared with the input files")
+
+
 def main(tier):
     v = Verdict("C04", tier)
     ev = {}
@@ -67,7 +140,8 @@ def main(tier):
                 v.violation(rec, dict(engine="encfs", profile="s20", detail=viol))
         ev["encfs"] = dict(edges=len(edges), states=r.distinct, **tot)
         log(f"[C04] EncFailSafe: {len(edges)} edges replayed in {tot['runs']} runs, {tot['hidden_compared']} hidden-state comparisons, {tot['drifts']} drifts")
-    cov = dict(states=res.distinct + ev.get("trace_states", 0) + ev.get("encfs", {}).get("states", 0), transitions=res.generated,
+    cli_repair_damaged(v, tier, ev)
+    cov = dict(cli_repairs_of_damaged_archives=ev.get("cli_repairs", 0), states=res.distinct + ev.get("trace_states", 0) + ev.get("encfs", {}).get("states", 0), transitions=res.generated,
                encfs_model=ev.get("encfs"), tlc_runs=ev.get("tlc"),
                traces_validated_against_impl=ev.get("traces", 0), repairs_validated=ev.get("repairs", 0),
                archives=ev.get("scenarios", 0), samples=[dict(labels=c["labels"]) for c in chosen[:2]] or ["none"],
